@@ -137,7 +137,8 @@ def run(chk: Check):
             # also called for replacements — and may fail there
             base.dedup_passes = 2
             vals = [0.0, 0.5, 1.0, 1.5]
-            base.lineup = [(c, bs, [[[rng.choice(vals) for _ in range(base.dims)] for _ in range(bs)] for _ in script], cs) for (c, bs, script, cs) in base.lineup]
+            pool = [[rng.choice(vals) for _ in range(base.dims)] for _ in range(3)]      # three vectors only: repeats are certain from the second batch on
+            base.lineup = [(c, bs, [[list(rng.choice(pool)) for _ in range(bs)] for _ in script], cs) for (c, bs, script, cs) in base.lineup]
             base.loss_table = {}
             chk.count("samplers:deduplicating_on_a_coarse_space")
         free_lines, free_info = run_quiet(base)
@@ -158,6 +159,8 @@ def run(chk: Check):
             chk.count(f"{sched}:{fault[0]}"); chk.count("raised_in_first_call" if raised else "raised_in_second_call_or_not")
             case = {"case": {"scn": scn_json(base), "fault": list(fault)}}
             # the fault index may fall into the second call (calibrate(1)): then the first call must equal the fault-free one
+            if info.get("swallowed"):
+                chk.fail(f"an exception injected into a {kind} call was raised inside calibrate() (operation {info['swallowed'][0]}), which returned normally instead of propagating it", case)
             if not raised:
                 if ch.canon_line(first) != ch.canon_line(free_lines[1]):
                     chk.fail("a run without any failure in its first call differs from the fault-free run", case)
